@@ -30,6 +30,10 @@ def build(seed, shuffle_seed=None):
 
     def leaf():
         x = r.random()
+        if x < 0.08:
+            # external types are never safe, whatever their fallback is
+            fb = r.choice([ref("Color", P[0]), opt(ref("Color", P[0])), prim("STRING")] + [ref(n, P[0]) for n, a in aliases if a["alias"].get("safety") == "SAFE"])
+            return external("Ext%d" % r.randrange(3), "java.ext", fb), None
         if x < 0.2:
             return ref("Color", P[0]), None
         if x < 0.3 and aliases:
@@ -85,7 +89,9 @@ def build(seed, shuffle_seed=None):
             kw["tags"] = ["safe"]
         args.append(arg("body", t, "body", **kw))
         for q in range(r.choice([0, 1, 2])):
-            qt = r.choice([ref("Color", P[0]), opt(ref("Color", P[0])), prim("STRING"), lst(prim("INTEGER"))] + [ref(n, P[0]) for n, a in aliases if a["alias"]["alias"]["type"] == "primitive"])
+            qt = r.choice([ref("Color", P[0]), opt(ref("Color", P[0])), prim("STRING"), lst(prim("INTEGER")), external("ExtQ", "java.ext", ref("Color", P[0])),
+                           opt(external("ExtQ", "java.ext", ref("Color", P[0])))] + [ref(n, P[0]) for n, a in aliases if a["alias"]["alias"]["type"] == "primitive"]
+                          + [external("ExtA", "java.ext", ref(n, P[0])) for n, a in aliases if a["alias"].get("safety") == "SAFE"])
             kw = {}
             if r.random() < 0.2:
                 kw["safety"] = r.choice(["SAFE", "UNSAFE"])
